@@ -247,7 +247,9 @@ def replay(case):
         ev = {"op": "ig_intersection", "G": G, "A": A}
         if r[0] == "ok":
             v = verdict(r[1].is_empty)
-            if v.startswith("exc"):
+            if v == "exc:Timeout":
+                ev["slow"] = True
+            elif v.startswith("exc"):
                 ev["exc"] = v
             else:
                 ev["res"] = v
